@@ -612,4 +612,16 @@ Proof.
         -- apply nodot_sdots. repeat constructor; lia.
       * apply (MS_one dec2f dec2d (CItem (Some VT)) (MR 3 [] [])). cbn [m_ok]. split; [lia|]. left. split; reflexivity.
 Qed.
+(* white space between tokens is arbitrary: "1" newline four blanks "true" tab "-7" *)
+Lemma linebreak_example :
+  lang dec2f dec2d [VI 1; VT; VI (-7)] ([49] ++ nl4 ++ kw_true ++ [9] ++ [45; 55]).
+Proof.
+  apply (L_cons dec2f dec2d (VI 1) [49] nl4 VT [VI (-7)] (kw_true ++ [9] ++ [45; 55])); [|apply sepw_nl4|].
+  - exact (tok_k_tokof dec2f dec2d KI 1 ltac:(cbn; lia)).
+  - apply (L_cons dec2f dec2d VT kw_true [9] (VI (-7)) [] [45; 55]).
+    + exact (proj1 (scalar_tok dec2f dec2d {| lossless := true; prec := 2; linelength := 80; compress := false |}
+                      VT 0 _ _ _ I eq_refl)).
+    + split; [discriminate|]. repeat constructor.
+    + apply L_one. exact (tok_k_tokof dec2f dec2d KI (-7) ltac:(cbn; lia)).
+Qed.
 End Example.
